@@ -631,6 +631,47 @@ func c09Gen(tier string, rng *rand.Rand, emit func(interface{})) {
 		}
 		emit(c09Case{Kind: 0, Xs: toF64s(xs), Big: true})
 	}
+	// (d5) GeoMean at the ends of the float64 range: 1..6 POSITIVE values whose PRODUCT leaves the range (>= 1e77 with
+	//      n = 4, >= 1e154 with n = 2, <= 1e-81 ...) although the geometric mean is representable: the log-average is
+	//      accurate there, a root of the running product is not.  Compared through g^n = prod x_i exactly in Q
+	//      (relative tolerance scaled by max|log2 x_i|/64).  Magnitudes are chosen so that the other observables of the
+	//      case stay decidable: large values well away from the Variance overflow threshold (M2 ~ 1e308), tiny values
+	//      either around 1e-81..1e-100 (squared deviations still normal) or all equal (Variance exactly 0).
+	geoCase := func(xs []float64) {
+		emit(c09Case{Kind: 0, Xs: toF64s(xs), Big: true})
+	}
+	spread := func(mag float64, n int) []float64 {
+		xs := make([]float64, n)
+		for i := range xs {
+			xs[i] = mag * (1 + 0.25*float64((i*3+rng.Intn(2))%8))
+		}
+		return xs
+	}
+	for n := 1; n <= 6; n++ {
+		for _, mag := range []float64{1e77, 3e80, 1e156, 2e160, 1e300, 1.1e307, 1e-81, 1e-90} {
+			geoCase(spread(mag, n))
+		}
+		for _, v := range []float64{1e-154, 3.3e-160, 1e-300, 1e-305, 1e305} {
+			geoCase(rep(v, n))
+		}
+	}
+	for _, xs := range [][]float64{
+		{1e300, 1e-300}, {1e-300, 1e300}, {1e300, 1e-300, 1e300}, {1e-200, 1e-150, 1e300}, {1e160, 1e-160, 1e160, 1e160},
+		{1e80, 1e80, 1e80, 1e80, 1e-300}, {3e307, 1e-307},
+	} {
+		geoCase(xs)
+	}
+	// ... and with integer weights (Sample.GeoMean = GeoMean of the repeated sample): total weight <= 12
+	for _, mag := range []float64{1e78, 1e-85} {
+		for n := 2; n <= 4; n++ {
+			xs := spread(mag, n)
+			ws := make([]float64, n)
+			for i := range ws {
+				ws[i] = float64(1 + rng.Intn(3))
+			}
+			emit(c09Case{Kind: 0, Xs: toF64s(xs), Ws: toF64s(ws), HasW: true, Big: true})
+		}
+	}
 	// (d4) long inputs (lengths around powers of two up to 2^13+8; the exact model's incremental loops count in unary
 	//      and cost n^2: 2 s at 8192, 5 min at 65543 - the vec helpers below go up to 2^16+7): small values k/8; the
 	//      first value is 0 so that GeoMean is NaN at once (its coefficient vector is quadratic in n)
